@@ -12,13 +12,22 @@ class AnalysisError(Exception):
 FuncNode = (ast.FunctionDef, ast.AsyncFunctionDef)
 
 
+class _Unparser(ast._Unparser):
+    def visit_InlineBlock(self, node):          # helper body analysed in place (inline.py): print its statements
+        for st in node.body:
+            self.traverse(st)
+
+
 def unparse(node) -> str:
     if node is None:
         return "None"
     try:
-        return ast.unparse(node)
+        return _Unparser().visit(node)
     except Exception:  # pragma: no cover
-        return ast.dump(node)
+        try:
+            return ast.unparse(node)
+        except Exception:
+            return ast.dump(node)
 
 
 def norm_stmt(node) -> str:
@@ -126,6 +135,113 @@ def _blocks(node):
         yield c.body
 
 
+def propagate_attribute_aliases(tree) -> int:
+    """canonical form: `x = a.b.c` (a pure attribute chain; x bound exactly once in the function; the root `a` is self /
+    cls / a parameter that is never rebound / a local bound exactly once) - every later read of `x` is analysed as
+    `a.b.c`.  Hoisting repeated attribute reads into locals, and the reverse, are among the most common
+    behaviour-preserving edits; the rules read option and field attributes, so they see the chain either way."""
+    count = 0
+    for fn in ast.walk(tree):
+        if not isinstance(fn, (ast.FunctionDef, ast.AsyncFunctionDef)):
+            continue
+        stores = {}
+        nested_stores = set()
+        for n in _walk_function(fn):
+            if isinstance(n, ast.Name) and isinstance(n.ctx, (ast.Store, ast.Del)):
+                stores[n.id] = stores.get(n.id, 0) + 1
+            elif isinstance(n, ast.ExceptHandler) and n.name:
+                stores[n.name] = stores.get(n.name, 0) + 1
+            elif isinstance(n, (ast.Global, ast.Nonlocal)):
+                for nm in n.names:
+                    stores[nm] = stores.get(nm, 0) + 2
+        for n in ast.walk(fn):
+            if n is not fn and isinstance(n, (ast.FunctionDef, ast.AsyncFunctionDef, ast.Lambda)):
+                for x in ast.walk(n):
+                    if isinstance(x, ast.Name) and isinstance(x.ctx, ast.Store):
+                        nested_stores.add(x.id)
+                    elif isinstance(x, ast.Nonlocal):
+                        nested_stores.update(x.names)
+        a = fn.args
+        params = {x.arg for x in a.posonlyargs + a.args + a.kwonlyargs}
+        if a.vararg:
+            params.add(a.vararg.arg)
+        if a.kwarg:
+            params.add(a.kwarg.arg)
+        aliases = {}
+        for n in _walk_function(fn):
+            if isinstance(n, ast.Assign) and len(n.targets) == 1 and isinstance(n.targets[0], ast.Name) \
+                    and isinstance(n.value, ast.Attribute):
+                t = n.targets[0].id
+                root = n.value
+                while isinstance(root, ast.Attribute):
+                    root = root.value
+                if not isinstance(root, ast.Name) or t in params or stores.get(t) != 1 or t in nested_stores:
+                    continue
+                r = root.id
+                if r == t or r in nested_stores:
+                    continue
+                if not (r in ("self", "cls", "mcs") or (r in params and stores.get(r, 0) == 0) or stores.get(r, 0) == 1
+                        or (r not in params and stores.get(r, 0) == 0)):
+                    continue
+                aliases[t] = (n, n.value)
+        if not aliases:
+            continue
+        # resolve chains of aliases (options = context.options; policy = options.invalid_items)
+        import copy as _copy
+
+        def expand(e, depth=0):
+            if depth > 5:
+                return e
+            class _S(ast.NodeTransformer):
+                def visit_Name(self_inner, node):
+                    if isinstance(node.ctx, ast.Load) and node.id in aliases:
+                        return ast.copy_location(expand(_copy.deepcopy(aliases[node.id][1]), depth + 1), node)
+                    return node
+            return _S().visit(e)
+
+        class _Subst(ast.NodeTransformer):
+            def __init__(self):
+                self.skip = {id(v[0]) for v in aliases.values()}
+
+            def visit_Assign(self_inner, node):
+                if id(node) in self_inner.skip:
+                    # keep the defining statement, but canonicalise its own right-hand side through earlier aliases
+                    node.value = expand(node.value)
+                    return node
+                self_inner.generic_visit(node)
+                return node
+
+            def visit_Name(self_inner, node):
+                nonlocal count
+                if isinstance(node.ctx, ast.Load) and node.id in aliases:
+                    count += 1
+                    return ast.copy_location(expand(_copy.deepcopy(aliases[node.id][1])), node)
+                return node
+
+            def visit_FunctionDef(self_inner, node):
+                if node is fn:
+                    self_inner.generic_visit(node)
+                return node          # nested definitions keep their own names (closures read the alias later)
+
+            visit_AsyncFunctionDef = visit_FunctionDef
+
+            def visit_Lambda(self_inner, node):
+                return node
+        _Subst().visit(fn)
+    return count
+
+
+def _walk_function(fn):
+    """nodes of a function without descending into nested function / class / lambda bodies"""
+    stack = list(ast.iter_child_nodes(fn))
+    while stack:
+        n = stack.pop()
+        yield n
+        if isinstance(n, (ast.FunctionDef, ast.AsyncFunctionDef, ast.ClassDef, ast.Lambda)):
+            continue
+        stack.extend(ast.iter_child_nodes(n))
+
+
 def inline_return_temporaries(tree) -> int:
     """canonical form, applied to every function before analysis: `tmp = <expr>` immediately followed by `return tmp`,
     where tmp is a local that is bound nowhere else and read nowhere else, is the same program as `return <expr>`.
@@ -202,6 +318,7 @@ class ModuleInfo:
         self.relpath = relpath
         self.source = source
         self.tree = ast.parse(source, filename=path)
+        self.propagated_aliases = propagate_attribute_aliases(self.tree)
         self.inlined_returns = inline_return_temporaries(self.tree)
         self.functions: Dict[str, FuncInfo] = {}
         self.classes: Dict[str, ClassInfo] = {}
@@ -289,6 +406,9 @@ class Repo:
                 except SyntaxError as e:
                     raise AnalysisError(f"cannot parse {rel}: {e}")
         self.digest = h.hexdigest()
+        # canonical form: helpers that are new with respect to the confirmed baseline are analysed inside their callers
+        from . import inline
+        self.inlined = inline.apply(self)
 
     # ---- anchors ---------------------------------------------------------------------------
     def module(self, name: str) -> ModuleInfo:
